@@ -1,6 +1,6 @@
 From Coq Require Import ZArith List String Bool.
 From FV Require Import Base.Ser Base.Res C02.Model C02.ModelGlyf.
-From FV Require C02.ModelCmap C02.ModelComponent.
+From FV Require C02.ModelCmap C02.ModelComponent C02.ModelKern.
 Import ListNotations.
 Open Scope string_scope.
 Definition cmap12_compile_t (hdr : Z * Z * Z * Z) (m : list (Z * Z)) : Res (list Z) :=
@@ -27,6 +27,8 @@ Definition reg : registry := [
   ("cmap12_compile", run2 cmap12_compile_t);
   ("cmap12_decompile", run2 ModelCmap.cmap12_decompile);
   ("component_compile", run3 ModelComponent.compile);
-  ("component_decompile", run1 ModelComponent.decompile)
+  ("component_decompile", run1 ModelComponent.decompile);
+  ("kern0_compile", run4 ModelKern.kern0_compile);
+  ("kern0_decompile", run2 ModelKern.kern0_decompile)
 ].
 Definition fv_entry := dispatch reg.
